@@ -30,7 +30,7 @@ REAL = ["rpyc.core.netref (BaseNetref, class_factory, _make_method)", "rpyc.core
 STUB = ["sockets/time/locks (simulator)"]
 ASSUMPTIONS = ["operations whose local meaning depends on the identity of a client-side object are not generated", "dir() is compared as a set",
                "conversions other than str/repr/format/bool/len/hash (e.g. bytes(proxy)) are outside the statement's list and not generated"]
-PROBES = ["c02:returned-reference", "c02:raised-same-class", "c02:denied-by-policy", "c02:buffiter", "c02:context-manager", "c02:inplace-returned-self"]
+PROBES = ["c02:returned-reference", "c02:raised-same-class", "c02:denied-by-policy", "c02:buffiter", "c02:context-manager", "c02:inplace-returned-self", "c02:class-changed-new-instance"]
 CHUNK = 20
 
 
@@ -147,6 +147,35 @@ class Vec(object):
         return self
 
 
+DYN_EXTRA = {
+    "__len__": lambda self: len(self.items),
+    "__bool__": lambda self: len(self.items) % 2 == 1,
+    "__getitem__": lambda self, i: self.items[i],
+    "__iter__": lambda self: iter(self.items),
+    "__contains__": lambda self, v: v in self.items,
+    "__call__": lambda self, k=1: (k, len(self.items)),
+    "__neg__": lambda self: ("neg", len(self.items)),
+    "__add__": lambda self, o: ("add", o, len(self.items)),
+}
+DYN_NAMES = sorted(DYN_EXTRA)
+
+
+def make_dyn(present):
+    """a fresh user class per run (its set of special methods changes during the run)"""
+    class Dyn(object):
+        def __init__(self, items):
+            self.items = list(items)
+
+        def size(self):
+            return len(self.items)
+
+        def __repr__(self):
+            return "Dyn(%r)" % (self.items,)
+    for nm in present:
+        setattr(Dyn, nm, DYN_EXTRA[nm])
+    return Dyn
+
+
 def gen3():
     yield 1
     yield (2, "two")
@@ -173,6 +202,8 @@ def snapshot(o, depth=0):
         return ("bytesio", "closed") if o.closed else ("bytesio", o.getvalue(), o.tell())
     if t is Vec:
         return ("vec", o.x, o.y, o._mag_set, o.entered)
+    if t.__name__ == "Dyn" and isinstance(o.__dict__.get("items"), list):
+        return ("dyn", snapshot(o.items, depth + 1), tuple(n for n in DYN_NAMES if n in t.__dict__))
     if t is slice:
         return ("slice", repr(o))
     if t.__name__ in ("dict_keys", "dict_values", "dict_items"):
@@ -204,6 +235,23 @@ def ops_for(kind):
         ("setattr-new", ["newattr"], lambda x, E: setattr(x, "newattr", E.v(2))),
         ("delattr-missing", ["nosuchattr"], lambda x, E: delattr(x, "nosuchattr")),
     ]
+    if kind == "dyn":
+        return [
+            ("len", ["__len__"], lambda x, E: len(x)),
+            ("bool", ["__len__", "__bool__"], lambda x, E: bool(x)),
+            ("repr", [], lambda x, E: repr(x)),
+            ("getitem", ["__getitem__"], lambda x, E: x[E.n(0, 4)]),
+            ("iter", ["__iter__", "__next__", "__getitem__"], lambda x, E: [e for e in x]),
+            ("contains", ["__contains__", "__iter__", "__next__", "__getitem__"], lambda x, E: E.n(1, 5) in x),
+            ("call", None, lambda x, E: x(2)),
+            ("neg", ["__neg__"], lambda x, E: -x),
+            ("add-val", ["__add__"], lambda x, E: x + 3),
+            ("size", ["size"], lambda x, E: x.size()),
+            ("items", ["items"], lambda x, E: x.items),
+            ("append", ["items", "append"], lambda x, E: x.items.append(E.n(2, 9))),
+            ("getattr-missing", ["nosuchattr"], lambda x, E: x.nosuchattr),
+            ("renew", None, None), ("renew", None, None),
+        ]
     O.extend(common)
     if kind in ("list", "bytearray", "deque"):
         elem = (lambda E, i: E.v(i)) if kind != "bytearray" else (lambda E, i: 65 + E.n(i) % 26)
@@ -359,10 +407,12 @@ def make_target(kind, w):
         return gen3(), [0]
     if kind == "bytesio":
         return io.BytesIO(b"hello\nworld\n"), [0]
+    if kind == "dyn":
+        return None, [0]
     return Vec(1 + w.draw(3), w.draw(4)), Vec(2, 5)
 
 
-KINDS = ("list", "dict", "set", "bytearray", "deque", "iterator", "generator", "bytesio", "vec", "list", "vec")
+KINDS = ("list", "dict", "set", "bytearray", "deque", "iterator", "generator", "bytesio", "vec", "list", "vec", "dyn")
 CLS = {"list": list, "dict": dict, "set": set, "bytearray": bytearray, "deque": collections.deque, "bytesio": io.BytesIO, "vec": Vec}
 IMMS = [0, 1, "a", (2, 3), None, 1.5, "z", 9, (1, 2), 2, "b", b"q", True, -1]
 
@@ -384,7 +434,13 @@ def run_one(choices, params):
         tgt_kind = kind
         target, other = make_target(kind, w)
         # generators cannot be deep-copied: build the twin the same way
-        if kind == "generator":
+        Kt = Kw = None
+        if kind == "dyn":
+            present = [nm for nm in DYN_NAMES if w.draw(3) == 0]
+            Kt, Kw = make_dyn(present), make_dyn(present)
+            items = [w.draw(7), "s", (1, 2)][:w.draw(4)]
+            target, twin, other_twin = Kt(items), Kw(items), [0]
+        elif kind == "generator":
             twin, other_twin = gen3(), [0]
         elif kind == "iterator":
             twin, other_twin = iter(list(target.__reduce__()[1][0])[:]), [0]
@@ -470,6 +526,23 @@ def run_one(choices, params):
         for step in range(nops):
             name, needs, fn = table[w.draw(len(table))]
             draws = [w.draw(1000) for _ in range(8)]
+            if name == "renew":
+                # the owner changes the class (adds / removes operator methods), makes a new instance and hands that out:
+                # operations on the new proxy must match the new instance (a proxy made earlier may be stale, so it is dropped)
+                for j in range(1 + draws[0] % 3):
+                    nm = DYN_NAMES[draws[1 + j] % len(DYN_NAMES)]
+                    for K in (Kt, Kw):
+                        if nm in K.__dict__:
+                            delattr(K, nm)
+                        else:
+                            setattr(K, nm, DYN_EXTRA[nm])
+                items = [draws[5] % 7, "s", (1, 2)][:draws[6] % 4]
+                holder["t"], twin = Kt(items), Kw(items)
+                proxy = None
+                proxy = ca.root.get("t")
+                sim.count("c02:class-changed-new-instance")
+                info["ops"].append(name)
+                continue
             before = snapshot(twin)
             # under the default configuration an operation needing a name the policy denies must fail cleanly
             denied = False
